@@ -282,5 +282,186 @@ example :
   refine ⟨_, rfl, ?_⟩
   decide
 
+/-! ### `actions_concluded` is written by `_tap_outcome_handler` only, and only at the end of the chain -/
+
+@[simp] theorem con_failStage (c : Cfg) (s : St) : (failStage c s).concluded = s.concluded := by
+  unfold failStage; split <;> rfl
+@[simp] theorem con_progress (s : St) : (progress s).concluded = s.concluded := by
+  unfold progress; repeat' split
+  all_goals simp [St.raise]
+@[simp] theorem con_progressIfFinished (s : St) : (progressIfFinished s).concluded = s.concluded := by
+  unfold progressIfFinished; split <;> simp
+@[simp] theorem con_payloadHandler (s : St) : (payloadHandler s).1.concluded = s.concluded := by
+  unfold payloadHandler; repeat' split
+  all_goals simp
+@[simp] theorem con_payloadContinue (s : St) : (payloadContinue s).concluded = s.concluded := by
+  unfold payloadContinue; split <;> simp
+@[simp] theorem con_payloadEnter (c : Cfg) (i : In) (s : St) : (payloadEnter c i s).concluded = s.concluded := by
+  unfold payloadEnter; repeat' split
+  all_goals simp
+@[simp] theorem con_payload (c : Cfg) (i : In) (s : St) : (payload c i s).concluded = s.concluded := by
+  unfold payload; split <;> simp
+@[simp] theorem con_c2c (c : Cfg) (i : In) (s : St) : (c2c c i s).concluded = s.concluded := by
+  unfold c2c; repeat' split
+  all_goals simp
+@[simp] theorem con_updateNextScanTarget (c : Cfg) (i : In) (e : Bool) (s : St) :
+    (updateNextScanTarget c i e s).concluded = s.concluded := by
+  unfold updateNextScanTarget; repeat' split
+  all_goals simp
+@[simp] theorem con_scanResponseHandler (c : Cfg) (i : In) (r : Resp) (s : St) :
+    (scanResponseHandler c i r s).concluded = s.concluded := by
+  unfold scanResponseHandler; repeat' split
+  all_goals simp
+@[simp] theorem con_scanMark (p : Hist) (s : St) : (scanMark p s).concluded = s.concluded := by
+  unfold scanMark; split <;> simp
+@[simp] theorem con_scanAbsorb (c : Cfg) (i : In) (p : Hist) (s : St) : (scanAbsorb c i p s).concluded = s.concluded := by
+  unfold scanAbsorb; split <;> simp
+@[simp] theorem con_scanLogic (s : St) : (scanLogic s).1.concluded = s.concluded := by
+  unfold scanLogic; repeat' split
+  all_goals simp
+@[simp] theorem con_scanAction (ty : ScanType) (s : St) : (scanAction ty s).concluded = s.concluded := by
+  unfold scanAction; split <;> simp
+@[simp] theorem con_scanProgress (s : St) : (scanProgress s).1.concluded = s.concluded := by
+  unfold scanProgress; repeat' split
+  all_goals simp
+@[simp] theorem con_scanDecide (c : Cfg) (s : St) : (scanDecide c s).1.concluded = s.concluded := by
+  unfold scanDecide; split <;> simp
+@[simp] theorem con_scanHandler (c : Cfg) (i : In) (s : St) : (scanHandler c i s).1.concluded = s.concluded := by
+  unfold scanHandler; repeat' split
+  all_goals simp [St.raise]
+@[simp] theorem con_propagatePrep (s : St) : (propagatePrep s).concluded = s.concluded := by
+  unfold propagatePrep propagateReset; split <;> simp
+@[simp] theorem con_propagateFirstScan (s : St) : (propagateFirstScan s).concluded = s.concluded := by
+  simp [propagateFirstScan]
+@[simp] theorem con_propagate (c : Cfg) (i : In) (s : St) : (propagate c i s).concluded = s.concluded := by
+  unfold propagate; repeat' split
+  all_goals simp
+@[simp] theorem con_activate (s : St) : (activate s).concluded = s.concluded := by
+  unfold activate; split <;> simp
+@[simp] theorem con_install (s : St) : (install s).concluded = s.concluded := by
+  unfold install; split <;> simp
+@[simp] theorem con_downloadAct (s : St) : (downloadAct s).concluded = s.concluded := by
+  unfold downloadAct; repeat' split
+  all_goals simp
+@[simp] theorem con_download (s : St) : (download s).concluded = s.concluded := by
+  unfold download; split <;> simp
+@[simp] theorem con_tapStart (s : St) : (tapStart s).concluded = s.concluded := by
+  unfold tapStart; repeat' split
+  all_goals simp [St.raise]
+@[simp] theorem con_bodies (c : Cfg) (i : In) (s : St) : (bodies c i s).concluded = s.concluded := by
+  simp [bodies]
+
+theorem con_setNext (c : Cfg) (s : St) (b d : Int) : (setNext c s b d).concluded = s.concluded :=
+  (setNext_fields c s b d).2.2
+
+theorem con_returnHandler (c : Cfg) (h : Hist) (s : St) : (returnHandler c h s).concluded = s.concluded := by
+  unfold returnHandler; split <;> rfl
+
+/-- `_tap_outcome_handler` is the only writer: it sets the flag only without `repeat_kill_chain`, only when the stage is
+SUCCEEDED or FAILED, keeps the stage and chooses do-nothing. -/
+theorem outcome_concluded (c : Cfg) (s : St) (h : (outcomeHandler c s).concluded = true) :
+    s.concluded = true ∨ (c.repeatKillChain = false ∧ (s.cur = .succeeded ∨ s.cur = .failed) ∧
+      (outcomeHandler c s).cur = s.cur ∧ (outcomeHandler c s).chosen = Act.nothing) := by
+  by_cases ht : s.cur = .succeeded ∨ s.cur = .failed
+  · cases hc : s.concluded with
+    | true => exact Or.inl rfl
+    | false =>
+      cases hr : c.repeatKillChain with
+      | true => simp [outcomeHandler, ht, hc, hr] at h
+      | false => right; simp [outcomeHandler, ht, hc, hr]
+  · have : outcomeHandler c s = s := by simp [outcomeHandler, ht]
+    rw [this] at h; exact Or.inl h
+
+/-- **`actions_concluded` is set nowhere else** (one call). If a call of `get_action` turns the flag on, then the call
+was an execution slot, `repeat_kill_chain` is off, the stage after the call is SUCCEEDED or FAILED, and the call
+returned do-nothing. -/
+theorem C19_tap1_concluded_only_at_end (c : Cfg) (s : St) (t : Int) (i : In) (h0 : s.concluded = false)
+    (h1 : (getAction c s t i).1.concluded = true) :
+    executes s t = true ∧ c.repeatKillChain = false ∧
+    ((getAction c s t i).1.cur = .succeeded ∨ (getAction c s t i).1.cur = .failed) ∧
+    (getAction c s t i).2 = Act.nothing := by
+  unfold getAction at h1 ⊢
+  split at h1
+  · rw [h0] at h1; cases h1
+  · rename_i hex
+    rw [if_neg hex]
+    refine ⟨by simpa using hex, ?_⟩
+    split at h1
+    · simp [St.raise, h0] at h1
+    · rename_i h hh
+      have hr0 : (returnHandler c h s).concluded = false := by rw [con_returnHandler]; exact h0
+      generalize returnHandler c h s = s1 at h1 hr0 ⊢
+      split at h1
+      · rename_i hp
+        rw [if_pos hp]
+        unfold mainPath at h1 ⊢
+        rw [con_bodies] at h1
+        generalize hs2 : setNext c { s1 with curT := t } (t + c.frequency) i.d1 = s2 at h1 ⊢
+        have h2 : s2.concluded = false ∧ s2.cur = s1.cur := by
+          subst hs2; exact ⟨by rw [con_setNext]; exact hr0, (setNext_fields c _ _ _).1⟩
+        rcases outcome_concluded c s2 h1 with hc | ⟨hrep, hterm, hcur, hch⟩
+        · rw [h2.1] at hc; cases hc
+        · have hterm' : (outcomeHandler c s2).cur = .succeeded ∨ (outcomeHandler c s2).cur = .failed := by
+            rw [hcur]; exact hterm
+          rw [bodies_terminal c i _ hterm']
+          exact ⟨hrep, hterm', hch⟩
+      · rename_i hp
+        rw [if_neg hp]
+        unfold failPath at h1 ⊢
+        rw [con_setNext] at h1
+        simp only [] at h1
+        generalize hs2 : setNext c s1 (t + c.frequency) i.d1 = s2 at h1 ⊢
+        have h2 : s2.concluded = false := by subst hs2; rw [con_setNext]; exact hr0
+        rcases outcome_concluded c s2 h1 with hc | ⟨hrep, hterm, hcur, hch⟩
+        · rw [h2] at hc; cases hc
+        · have hf := setNext_fields c { outcomeHandler c s2 with curT := t } (t + c.frequency) i.d2
+          refine ⟨hrep, ?_, ?_⟩
+          · rw [hf.1]; simp only []; rw [hcur]; exact hterm
+          · rw [setNext_chosen]; exact hch
+
+/-- The flag implies: `repeat_kill_chain` is off and the chain has ended. -/
+def ConcInv (c : Cfg) (s : St) : Prop :=
+  s.concluded = true → c.repeatKillChain = false ∧ (s.cur = .succeeded ∨ s.cur = .failed)
+
+theorem step_concInv (c : Cfg) (s : St) (t : Int) (i : In) (h : ConcInv c s) : ConcInv c (step c s t i).1 := by
+  unfold step
+  split
+  · exact h
+  · split
+    · exact h
+    · intro hc
+      simp only [] at hc ⊢
+      cases h0 : s.concluded with
+      | true =>
+        rw [C19_tap1_concluded_absorbing c s t i h0]
+        exact h h0
+      | false =>
+        have := C19_tap1_concluded_only_at_end c s t i h0 hc
+        exact ⟨this.2.1, this.2.2.1⟩
+
+theorem run_inv (c : Cfg) (P : St → Prop) (hstep : ∀ s t i, P s → P (step c s t i).1) :
+    ∀ (ins : List In) (s : St) (t : Int), P s → ∀ s' ∈ run c s t ins, P s' := by
+  intro ins
+  induction ins with
+  | nil => intro s t _ s' h; simp [run] at h
+  | cons i is ih =>
+    intro s t hp s' hs'
+    simp only [run, List.mem_cons] at hs'
+    rcases hs' with rfl | hs'
+    · exact hstep s t i hp
+    · exact ih _ (t + 1) (hstep s t i hp) s' hs'
+
+/-- **`actions_concluded` as a run invariant** (TAP001): in every run from the constructor, whenever the flag is set,
+`repeat_kill_chain` is off and the sampled stage is SUCCEEDED or FAILED.  In particular an agent with
+`repeat_kill_chain` never concludes, and no agent concludes in the middle of its chain. -/
+theorem C19_tap1_concluded_invariant (c : Cfg) (d0 : Int) (s0 : St) (ins : List In) (h0 : init c d0 = some s0) :
+    ∀ s ∈ run c s0 0 ins, s.concluded = true → c.repeatKillChain = false ∧ (s.cur = .succeeded ∨ s.cur = .failed) := by
+  have hinit : ConcInv c s0 := by
+    unfold init at h0
+    split at h0
+    · cases h0; intro h; cases h
+    · cases h0
+  exact run_inv c (ConcInv c) (fun s t i => step_concInv c s t i) ins s0 0 hinit
+
 end Tap1
 end Primaite.Agents
